@@ -6,9 +6,10 @@
 //!       `c17 cb <hex text> o|a`          skip_container_loop over consecutive blocks -> `r=<bytes consumed>|none l=.. rr=..`
 //!       `c17 ss <hex text>`              skip_string_unchecked on the text after an opening quote -> `r=<bytes consumed>|none esc=0|1`
 //!       `c17 d2i <hex 16 bytes> <need>`    simd_str2int (first byte a digit, need in 1..=16) -> `r=<sum> n=<count>`
+//!       `c17 bm <16|32|64> <hex x> <hex y> <n>`  BitMask of the integer masks: first_offset / before / all_zero / clear_high_bits(n), n in 0..=LEN
 //!       `c17 v <lanes> <hex bytes> <hex c>` u8xN eq/le, i8xN eq/le/gt against splat(c) -> `eq=.. le=.. ieq=.. ile=.. igt=..`
 use crate::util::*;
-use sonic_simd::{i8x16, i8x32, i8x64, u8x16, u8x32, u8x64, Mask, Simd};
+use sonic_simd::{i8x16, i8x32, i8x64, u8x16, u8x32, u8x64, BitMask, Mask, Simd};
 
 macro_rules! lanes {
     ($u:ty, $i:ty, $n:expr, $a:expr, $c:expr) => {{
@@ -109,6 +110,24 @@ pub fn run() {
                     .collect();
                 format!("t={}", parts.join(";"))
             }
+            "bm" => {
+                let w: usize = p[2].parse().unwrap();
+                let x = u64::from_str_radix(&p[3], 16).unwrap();
+                let y = u64::from_str_radix(&p[4], 16).unwrap();
+                let n: usize = p[5].parse().unwrap();
+                macro_rules! bm {
+                    ($t:ty) => {{
+                        let (x, y) = (x as $t, y as $t);
+                        format!("fo={} before={} zero={} chb={:x}", if x == 0 { "-".to_string() } else { x.first_offset().to_string() },
+                            if x.before(&y) { 1 } else { 0 }, if x.all_zero() { 1 } else { 0 }, x.clear_high_bits(n) as u64)
+                    }};
+                }
+                match w {
+                    16 => bm!(u16),
+                    32 => bm!(u32),
+                    _ => bm!(u64),
+                }
+            }
             "d2i" => {
                 let a = unhex(&p[2]);
                 let need: usize = p[3].parse().unwrap();
@@ -135,6 +154,26 @@ pub fn gen(seed: u64, thorough: bool) {
     let n = if thorough { 20000 } else { 1500 };
     for _ in 0..n {
         out.line(&format!("c17 px {:x}", r.next()));
+    }
+    // the integer bit masks (`BitMask` for u16 / u32 / u64): single bits and pairs against each other (disjoint masks, as the
+    // byte classes of a block are), clear_high_bits for EVERY n in 0..=LEN
+    for w in [16usize, 32, 64] {
+        let full: u64 = if w == 64 { u64::MAX } else { (1u64 << w) - 1 };
+        for n in 0..=w {
+            for x in [full, 1u64, 1u64 << (w - 1), 0x5555_5555_5555_5555 & full, r.next() & full] {
+                out.line(&format!("c17 bm {w} {:x} 0 {n}", x));
+            }
+        }
+        for i in 0..w {
+            for j in [0usize, i / 2, (i + 1) % w, w - 1] {
+                let x = 1u64 << i;
+                let y = if j == i { 0 } else { 1u64 << j };
+                out.line(&format!("c17 bm {w} {:x} {:x} {}", x, y, i % (w + 1)));
+                out.line(&format!("c17 bm {w} {:x} {:x} {}", x | (r.next() & full & !(y) & !((1u64 << i) - 1)), y, j));
+            }
+        }
+        out.line(&format!("c17 bm {w} 0 0 0"));
+        out.line(&format!("c17 bm {w} 0 1 {w}"));
     }
     // get_nonspace_bits: all 256 byte values in every lane (lane = value + k mod 64), random blocks of JSON-like bytes
     for k in 0..64usize {
